@@ -81,10 +81,12 @@ def handle (j : J) : Except String J := do
     let forced := forcedOverlay (← f.getStr "apiVersion") (← f.getStr "kind") (← f.getStr "name")
       ((f.getD "namespace").str?)
     let steps ← (← j.getArr "steps").mapM toStep
-    let target := materialise ev env template forced steps
     let create ← optFieldsAt j "create"
-    pure (.obj [("target", ofFields target),
-                ("create", ofFields (createView ev env target forced (create.map OSpec.ofFields)))])
+    match materialiseE ev env template forced steps with
+    | none => pure (.obj [("fail", .bool true)])     -- some skipIf is not a boolean: PermFail, no target
+    | some target =>
+      pure (.obj [("target", ofFields target),
+                  ("create", ofFields (createView ev env target forced (create.map OSpec.ofFields)))])
   | op => throw s!"bad op {op}"
 
 end Koreo.Driver.C12
